@@ -54,6 +54,17 @@ def _build(cfg):
             dec.align_to(s["align_to"])
         dec.add(bus, name=(f"w{i}" if s.get("named") else None), addr=s.get("addr"))
         subs.append(bus)
+    rejected = []
+    if cfg.get("rejected"):
+        # an add() that is refused (out-of-bounds explicit address) must leave no trace in the hardware
+        rb = csr.Interface(addr_width=1, data_width=cfg["dw"], path=("rejected",))
+        rb.memory_map = MemoryMap(addr_width=1, data_width=cfg["dw"])
+        try:
+            dec.add(rb, addr=1 << cfg["aw"])
+            raise AssertionError("out-of-bounds window accepted")
+        except ValueError:
+            rejected.append(rb)
+    dec._verif_rejected = rejected
     return dec, subs
 
 
@@ -65,7 +76,8 @@ def configs(tier, seed):
     while len(out) < want and tries < want * 20:
         tries += 1
         aw = rnd.randint(3, 7 if tier == "quick" else 9)
-        cfg = {"aw": aw, "dw": rnd.choice([8, 16]), "align": rnd.choice([0, 0, 0, 1, 2, 3]), "subs": []}
+        cfg = {"aw": aw, "dw": rnd.choice([8, 16]), "align": rnd.choice([0, 0, 0, 1, 2, 3]), "subs": [],
+               "rejected": rnd.random() < 0.3}
         for i in range(rnd.randint(1, 4 if tier == "quick" else 6)):
             s = {"aw": rnd.randint(1, aw - 1), "named": rnd.random() < 0.5, "res": rnd.random() < 0.7}
             mode = rnd.choice(["implicit", "implicit", "explicit", "align_to"])
@@ -86,7 +98,8 @@ def configs(tier, seed):
 def maker(cfg):
     def make():
         dec, subs = _build(cfg)
-        return Harness(dec, flat_ports(dec, *subs), dec=dec, subs=subs)
+        rej = dec._verif_rejected
+        return Harness(dec, flat_ports(dec, *subs, *rej), dec=dec, subs=subs, rej=rej)
     return make
 
 
@@ -114,6 +127,8 @@ def queries(h, cfg):
                                                       f.sig(sub.w_data) != f.sig(bus.w_data))))
             # outside the window's range: never strobed
             bad.append(z3.And(z3.Not(own), z3.Or(srs, sws)))
+        for rb in h.rej:
+            bad.append(z3.Or(is1(f.sig(rb.r_stb)), is1(f.sig(rb.w_stb))))
         return [], z3.Or(*bad) if bad else z3.BoolVal(False)
 
     def rdata(h, fr):
